@@ -31,7 +31,7 @@ func TestVerif_C12_Namespaces(t *testing.T) {
 		}
 		rng := kit.NewRand(seed, 0x12100+uint64(ti))
 		c12NSCase(t, r, rng, caseID, (ti+ti/8)%2 == 1)
-		if r.NViolations() > 30 {
+		if c12Generic(r) > 30 {
 			break
 		}
 	}
@@ -203,7 +203,7 @@ func (s *c12NSRun) matrix(phase string, focus *c12NS) {
 						}
 					}
 				}
-				if s.failed && s.r.NViolations() > 25 {
+				if s.failed && c12Generic(s.r) > 25 {
 					return
 				}
 			}
